@@ -6,6 +6,7 @@
 package c14
 
 import (
+	"crypto/cipher"
 	"fmt"
 	"strings"
 
@@ -152,6 +153,20 @@ func baseSuite(name string) proof.Suite {
 	return edwards25519.NewBlakeSHA256Ed25519()
 }
 
+// seeded is a suite whose random stream is a fixed function of a label: the
+// default suites draw from crypto/rand, which would make a re-run of a case
+// produce a different proof.
+type seeded struct {
+	proof.Suite
+	st cipher.Stream
+}
+
+func (s seeded) RandomStream() cipher.Stream { return s.st }
+
+func seededSuite(s proof.Suite, label string) proof.Suite {
+	return seeded{s, alpha.Stream("c14-rand-" + label)}
+}
+
 func Run(c *vf.Check) {
 	c.Level = "model_checking"
 	var trees []tree
@@ -270,7 +285,7 @@ func runTree(c *vf.Check, gn string, t tree) {
 			if nb > 1 {
 				choice[b.pred] = e.choice
 			}
-			suite := w.s
+			suite := seededSuite(w.s, id)
 			prf, err := proof.HashProve(suite, "c14-proto", b.pred.Prover(suite, sv, pv, choice))
 			c.Eval(1)
 			if err != nil {
